@@ -36,6 +36,32 @@ mutual
       have h0 := size_le x
       simp only [size, render, List.length_cons, List.length_append]
       omega
+    | .natom j1 v j => simp only [size, render, List.length_cons, List.length_append]; omega
+    | .strs s0 j0 more => simp only [size, render, List.length_cons, List.length_append]; omega
+    | .dict j0 entries final j =>
+      have h1 := sizeEntries_le entries
+      have h2 := sizeDFinal_le final
+      simp only [size, render, List.length_cons, List.length_append]
+      omega
+  theorem sizeEntries_le (entries : List (L × List Bool × L × List Bool)) :
+      sizeEntries entries ≤ 3 * (renderEntries entries).length := by
+    match entries with
+    | [] => simp [sizeEntries]
+    | (k, a, v, b) :: rest =>
+      have h0 := size_le k
+      have h1 := size_le v
+      have h2 := sizeEntries_le rest
+      simp only [sizeEntries, renderEntries, List.length_cons, List.length_append]
+      omega
+  theorem sizeDFinal_le (final : Option (L × List Bool × L)) :
+      sizeDFinal final ≤ 3 * (renderDFinal final).length := by
+    match final with
+    | none => simp [sizeDFinal]
+    | some (k, a, v) =>
+      have h0 := size_le k
+      have h1 := size_le v
+      simp only [sizeDFinal, renderDFinal, List.length_cons, List.length_append]
+      omega
   theorem sizeItems_le (items : List (L × List Bool)) : sizeItems items ≤ 3 * (renderItems items).length := by
     match items with
     | [] => simp [sizeItems]
@@ -124,7 +150,11 @@ theorem parseStatement_binding (b : BindL) (hk : KeyToks b.toks b.key b.line) (r
   have hfuel : size b.value ≤ 3 * (Gin.Parser.render b.value ++ newlineTok :: r).length + 3 := by
     have := size_le b.value
     simp only [List.length_append]; omega
-  rw [parse_render b.value _ (newlineTok :: r) (clean_cons rfl hr) hfuel]
+  have hns : NoStr (newlineTok :: r) := by
+    unfold NoStr
+    rw [dropTriv_cons_of_not _ _ (by simp [skippable, newlineTok])]
+    simp [cur_cons, newlineTok]
+  rw [parse_render b.value _ (newlineTok :: r) (clean_cons rfl hr) hns hfuel]
   have hnl : dropTriv (newlineTok :: r) = newlineTok :: r :=
     dropTriv_cons_of_not _ _ (by simp [skippable, newlineTok])
   simp only [hnl, finishStmt, cur_cons, BindL.stmt]
